@@ -2,6 +2,7 @@ package main
 
 import (
 	"bytes"
+	"crypto/sha256"
 	"fmt"
 	"reflect"
 	"strings"
@@ -151,6 +152,13 @@ func init() {
 		if first != "" {
 			return first
 		}
-		return fmt.Sprintf("ok %d", runs)
+		// hashes of the baseline outputs (first run of every workload in this process, in the order
+		// given): compared by the orchestrator across fresh processes that ran them in other orders
+		var hs []string
+		for _, b := range base {
+			h := sha256.Sum256(append(append([]byte{}, b.file...), []byte(b.read)...))
+			hs = append(hs, fmt.Sprintf("%x", h[:8]))
+		}
+		return fmt.Sprintf("ok %d %s", runs, strings.Join(hs, ","))
 	})
 }
